@@ -119,6 +119,11 @@ _gi("tt3[:,None,a,s]", False, 3, VTuple((FULL, VNone(), UI("a"), US("s"))), [("k
 _gi("tt3[None,:,:,s]", False, 3, VTuple((VNone(), FULL, FULL, US("s"))), [("none",), ("keep",), ("keep",), ("slice", "s")])
 _gi("tt3[...,a]", False, 3, VTuple((ELL, UI("a"))), [("keep",), ("keep",), ("int", "a")])
 _gi("tt3[a,...]", False, 3, VTuple((UI("a"), ELL)), [("int", "a"), ("keep",), ("keep",)])
+_gi("tt3[None,a,...]", False, 3, VTuple((VNone(), UI("a"), ELL)), [("none",), ("int", "a"), ("keep",), ("keep",)])
+_gi("tt3[None,...]", False, 3, VTuple((VNone(), ELL)), [("none",), ("keep",), ("keep",), ("keep",)])
+_gi("tt3[...,None]", False, 3, VTuple((ELL, VNone())), [("keep",), ("keep",), ("keep",), ("none",)])
+_gi("tt3[a,b,s]", False, 3, VTuple((UI("a"), UI("b"), US("s"))), [("int", "a"), ("int", "b"), ("slice", "s")])
+_gi("tt3[a,b,:]", False, 3, VTuple((UI("a"), UI("b"), FULL)), [("int", "a"), ("int", "b"), ("keep",)])
 _gi("tt3[s,t,u]", False, 3, VTuple((US("s"), US("t"), US("u"))), [("slice", "s"), ("slice", "t"), ("slice", "u")])
 _gi("tt1[s]", False, 1, US("s"), [("slice", "s")])
 _gi("tt1[a]", False, 1, UI("a"), [("int", "a")])
@@ -290,3 +295,44 @@ for _d, _np in ((3, 3), (3, 1), (3, 2), (1, 1)):
         presets={"scalar == 0": False}, check=closed_check(_pad_tt_expected(_d, _np, Coef.sym("v")), "pad(x, value)"))
 scn(name="pad:too-many", func="_extras.pad", props=("C18",), must_raise=True, min_returns=0,
     args=lambda it: (None, [make_tt(it, "x", False, 2), _padding(3)], {}), check=raises_check)
+
+
+# --------------------------------------------------------------------------- grad_list: gradients of exactly the listed cores, grouped per tensor (C15)
+
+def _grads_expected(all_in_one, orders):
+    def check(out):
+        v = out.value
+
+        def tags(lst):
+            return [x.tag if isinstance(x, VOpaque) else f"<{type(x).__name__}>" for x in lst]
+        want = []
+        for j, dd in enumerate(orders):
+            want.append([f"t{j}", dd])
+        if not isinstance(v, VList):
+            return [("result", False, f"a {type(v).__name__} is returned where a list is specified")]
+        if all_in_one:
+            got = tags(v.items)
+            ok = len(got) == sum(orders) and all(g.startswith("grad:") for g in got)
+            pos = 0
+            for j, dd in enumerate(orders):
+                for i in range(dd):
+                    ok = ok and pos < len(got) and f"t{j}" in got[pos] and f"[{i}]" in got[pos].replace("cores_", "")
+                    pos += 1
+            return [("result", ok, "one flat list: the gradients of all cores of all tensors in order" if ok else
+                     f"grad_list(all_in_one=True) must return the gradients of all cores of all tensors in order; got {got}")]
+        ok = len(v.items) == len(orders) and all(isinstance(x, VList) for x in v.items)
+        shown = [tags(x.items) if isinstance(x, VList) else f"<{type(x).__name__}>" for x in v.items]
+        if ok:
+            for j, (dd, x) in enumerate(zip(orders, v.items)):
+                got = tags(x.items)
+                ok = ok and len(got) == dd and all(g.startswith("grad:") and f"t{j}" in g for g in got)
+        return [("result", ok, "one list per tensor holding the gradients of that tensor's cores" if ok else
+                 f"grad_list(all_in_one=False) must return one list per tensor with the gradients of exactly that tensor's cores (orders {list(orders)}); got {shown}")]
+    return check
+
+
+for _aio in (True, False):
+    for _orders in ((2, 3), (3, 1), (2, 2)):
+        scn(name=f"grad_list:all_in_one={_aio},orders={_orders}", func="grad.grad_list", props=("C15",),
+            args=(lambda o, a: (lambda it: (None, [VOpaque("val"), VList([make_tt(it, f"t{j}", False, dd) for j, dd in enumerate(o)]), VBool(a)], {})))(_orders, _aio),
+            check=_grads_expected(_aio, _orders))
